@@ -11,6 +11,7 @@ VERIF = os.path.dirname(os.path.abspath(__file__))
 sys.path.insert(0, VERIF)
 import build, setup  # noqa: E402
 
+PROGRAM_OPTS = []
 LIBS = "-lfreetype -lX11 -lSM -lICE -lpcre -ldl -lm -lpthread".split()
 DEFAULT_SEED = 20261003
 
@@ -72,8 +73,29 @@ def link_harness(prop, cfg, variant, extra_key=""):
     return exe
 
 
+def build_programs(prop, cfg):
+    """Auxiliary C programs (prop.json "programs": [{name, source, variant}]) built against a libast variant."""
+    out = {}
+    for pr in cfg.get("programs", []):
+        vdir = build.ensure(pr["variant"])
+        cc, cflags, _d, _pf = build.VARIANTS[pr["variant"]]
+        src = os.path.join(VERIF, "props", prop, pr["source"])
+        key = hashlib.sha256((open(src).read() + vdir + pr["variant"]).encode()).hexdigest()[:12]
+        exe = os.path.join(build.CACHE, "bin", "%s-prog-%s-%s" % (prop, pr["name"], key))
+        if not os.path.exists(exe):
+            for old in glob.glob(os.path.join(build.CACHE, "bin", "%s-prog-%s-*" % (prop, pr["name"]))):
+                os.unlink(old)
+            os.makedirs(os.path.dirname(exe), exist_ok=True)
+            cmd = [cc] + cflags.split() + ["-DHAVE_CONFIG_H", "-D" + build.GUARD] + build.include_flags(vdir) + [src, os.path.join(vdir, "libast.a")] + LIBS + ["-o", exe]
+            r = sh(cmd)
+            if r.returncode != 0:
+                raise RuntimeError("program build failed: %s\n%s" % (pr["name"], r.stderr))
+        out[pr["name"]] = exe
+    return out
+
+
 def run_replay(exe, path, quarantine, tier, scratch):
-    cmd = [exe, "--replay", path, "--tier", tier, "--scratch", scratch]
+    cmd = [exe, "--replay", path, "--tier", tier, "--scratch", scratch] + PROGRAM_OPTS
     if quarantine:
         cmd += ["--quarantine", ",".join(quarantine)]
     r = sh(cmd, timeout=600)
@@ -162,6 +184,11 @@ def _generic(args, cfg, prop, tier, t0, known, open_f, quarantine, run_dir, scra
         if variant not in exes:
             exes[variant] = link_harness(prop, cfg, variant)
     default_exe = exes[modes[next(iter(modes))].get("variant", "asan")]
+    programs = build_programs(prop, cfg)
+    global PROGRAM_OPTS
+    PROGRAM_OPTS = []
+    for kname, kpath in programs.items():
+        PROGRAM_OPTS += ["--opt", "%s=%s" % (kname, kpath)]
 
     # ---------------- single replay
     if args.replay:
@@ -219,7 +246,7 @@ def _generic(args, cfg, prop, tier, t0, known, open_f, quarantine, run_dir, scra
                    "--worker", str(k), "--out", out, "--scratch", os.path.join(scratch, "%s-%d" % (mname, k))]
             if quarantine:
                 cmd += ["--quarantine", ",".join(quarantine)]
-            cmd += ["--opt", "nworkers=%d" % nworkers]
+            cmd += ["--opt", "nworkers=%d" % nworkers] + PROGRAM_OPTS
             for kk, vv in t.get("opt", {}).items():
                 cmd += ["--opt", "%s=%s" % (kk, vv)]
             worker_procs.append((mname, k, out, cmd))
